@@ -329,3 +329,19 @@ def run(ctx):
         ctx.stage('replay.closure', concretisation=c.describe(), graph_states=len(g.state), graph_edges=g.n_edges,
                   edges_replayed=ne, paths=npaths, paths_complete=complete, random_walks=nr, real_calls=w.steps)
     weak_coupling(ctx, info)
+    # direction B: every evaluation of the cost function during the solves of the repository's tests and of the drivers - each pair's
+    # closure output against the relation of the specification (Trace_HardCore.tla, clause ClosureRelation)
+    import json
+    import os
+    from harness import tracecheck
+    tpath = os.path.join(ctx.tmp, 'closure_terms.json')
+    with open(tpath, 'w') as fh:
+        json.dump({'rel': info['rel'], 'drel': info.get('drel', {}), 'core': info['core']}, fh)
+    os.environ['VERIF_TRACE_COST'] = '1'
+    os.environ['VERIF_CLOSURE_TERMS'] = tpath
+    try:
+        ev1, i1 = tracecheck.record_pytest(ctx, ['PRISM_test.py', 'CalcPRISM_test.py'], 'suite_cost')
+        ev2, i2 = tracecheck.record_driver(ctx, 'prism_driver', [ctx.seed, 'calc', 2 if thorough else 1], 'driver_cost')
+    finally:
+        del os.environ['VERIF_TRACE_COST']
+    tracecheck.cost_traces(ctx, [('suite', ev1, i1), ('driver', ev2, i2)])
